@@ -308,6 +308,7 @@ package node_info
 //@ func (*NodeInfo).NonAllocatedResources
 //@   props C01 C14
 //@   requires ni != nil && ni.Idle != nil && ni.Releasing != nil
+//@   requires allocated(ni.Idle.scalarResources) && allocated(ni.Releasing.scalarResources)   // heap closedness: maps reachable from the node exist before the call
 //@   fresh
 //@   ensures result.milliCpu == ni.Idle.milliCpu + ni.Releasing.milliCpu && result.memory == ni.Idle.memory + ni.Releasing.memory && result.gpus == ni.Idle.gpus + ni.Releasing.gpus
 //@   ensures forall k v1.ResourceName :: result.scalarResources[k] == sumScalar(ni, k) && (k in result.scalarResources <==> sumHas(ni, k))
